@@ -104,6 +104,8 @@ pub struct World {
     pub cfg: WorldCfg,
     pub id_pool: Vec<String>,
     pub restart_count: usize,
+    /// when false the oracles are not evaluated (used to build stores for other engines)
+    pub checks: bool,
 }
 
 pub fn adversarial_pool() -> Vec<String> {
@@ -127,6 +129,7 @@ impl World {
             cfg,
             id_pool: adversarial_pool(),
             restart_count: 0,
+            checks: true,
         }
     }
 
@@ -188,7 +191,7 @@ impl World {
             // whatever differs afterwards is attributable to it
             let saved = self.model.clone();
             self.model = pre.clone();
-            let before = self.check_state_opt(stepno, true);
+            let before = if self.checks { self.check_state_opt(stepno, true) } else { Vec::new() };
             self.model = saved;
             if !before.is_empty() {
                 return before;
@@ -312,6 +315,9 @@ impl World {
             (Outcome::Skip, _) => unreachable!(),
         }
 
+        if !self.checks {
+            return violations;
+        }
         // ---- state oracles
         let mut found = self.check_state_opt(stepno, pre_dump.is_some());
         if matches!(expected, Outcome::Err | Outcome::NoopEither) {
@@ -620,4 +626,34 @@ pub fn attribute(trace: &Trace, result: RunResult) -> RunResult {
         v.owner = owner;
     }
     result
+}
+
+/// Builds a world by running a generated history without evaluating the oracles (used by the
+/// engines that need realistic stores: corrupted loads, concurrent readers, ...). If the library
+/// and the model disagree on an outcome the history is cut there.
+pub fn generate_world(run_seed: u64, profile: &dyn Fn(&mut Rng, &mut GenCfg, &mut WorldCfg)) -> (World, Vec<Op>) {
+    let mut cfg_rng = Rng::sub(run_seed, "cfg");
+    let mut gcfg = GenCfg::draw(&mut cfg_rng);
+    let mut wcfg = WorldCfg::default();
+    profile(&mut cfg_rng, &mut gcfg, &mut wcfg);
+    let mut wl = Rng::sub(run_seed, "wl");
+    let mut world = World::new(wcfg);
+    world.checks = false;
+    let mut stats = RunStats::default();
+    let mut ops = Vec::new();
+    for i in 0..gcfg.n_ops {
+        let op = {
+            let mut g = Gen {
+                rng: &mut wl,
+                cfg: &gcfg,
+            };
+            g.next_op(&world.model)
+        };
+        ops.push(op.clone());
+        let v = world.step(&op, &mut stats, i);
+        if !v.is_empty() {
+            break;
+        }
+    }
+    (world, ops)
 }
